@@ -77,6 +77,9 @@ def run(chk, tier, seed):
     chk.add_eval(ncuts)
     chk.cov["files"] = len(meta)
     chk.cov["exhaustive"] = False
+    # library types outside the universe (maps, sets, heaps, net/time types, ...): cuts of their files
+    from . import libcases
+    libcases.run_cuts(chk, binary, step=997 if tier == "quick" else 101)
     chk.cov["rule"] = ("for sampled (type, value) and each of 5 containers: the saved file is cut at EVERY offset 0..len-1 and loaded by the real code; "
                        "outcome must be an error, or (compressed/encrypted only) the original value; per-cut error classes of the uncompressed "
                        "containers are compared with load_plain evaluated in Coq; distinct = (type key, container)")
